@@ -10,7 +10,7 @@ from pymodbus.server.sync import ModbusBaseRequestHandler
 
 from harness import pdus
 from harness.pyutil import errkind
-from harness.c18 import mk_block, dump_block, gen_block, extent
+from harness.c18 import mk_block, dump_block, gen_block, extent, build_slave_context
 
 LETTER = {2: 'd', 4: 'i', 3: 'h', 6: 'h', 16: 'h', 22: 'h', 23: 'h', 1: 'c', 5: 'c', 15: 'c'}
 TABLE_OF_T = {'readCoils': 'c', 'writeCoil': 'c', 'writeCoils': 'c', 'readDiscrete': 'd', 'readInput': 'i',
@@ -50,12 +50,11 @@ def mk_slave(desc):
     if omit:
         # tables the caller leaves out: ModbusSlaveContext creates their (default) blocks itself; those are what is dumped
         kw = {k: blocks[desc[t]] for t, k in (('d', 'di'), ('c', 'co'), ('i', 'ir'), ('h', 'hr')) if t not in omit}
-        ctx = ModbusSlaveContext(zero_mode=desc['zero'], **kw)
+        ctx = build_slave_context(desc, **kw)
         for t in omit:
             blocks[desc[t]] = ctx.store[t]
         return ctx, blocks
-    ctx = ModbusSlaveContext(di=blocks[desc['d']], co=blocks[desc['c']], ir=blocks[desc['i']],
-                             hr=blocks[desc['h']], zero_mode=desc['zero'])
+    ctx = build_slave_context(desc, di=blocks[desc['d']], co=blocks[desc['c']], ir=blocks[desc['i']], hr=blocks[desc['h']])
     return ctx, blocks
 
 
@@ -92,7 +91,8 @@ def gen_layout(rng, broken_p=0.0, small=True, big_p=0.07):
     if broken_p and rng.random() < broken_p:
         blocks.append({'kind': 'broken', 'exc': rng.choice(sorted(EXC_KINDS))})
         idx[rng.choice('dcih')] = len(blocks) - 1
-    return {'blocks': blocks, 'd': idx['d'], 'c': idx['c'], 'i': idx['i'], 'h': idx['h'], 'zero': rng.random() < 0.5}
+    return {'blocks': blocks, 'd': idx['d'], 'c': idx['c'], 'i': idx['i'], 'h': idx['h'], 'zero': rng.random() < 0.5,
+            'zconf': rng.choice(['explicit', 'explicit', 'explicit', 'explicit-under-other-default', 'from-default'])}
 
 
 def table_window(desc, t):
@@ -245,7 +245,8 @@ class Handler:
         srv.broadcast_enable = broadcast
         self.h.server = srv
         self.sent = []
-        self.h.send = self.sent.append
+        # like every real send(): a response whose should_respond is false is not put on the wire
+        self.h.send = lambda m: self.sent.append(m) if getattr(m, 'should_respond', True) else None
 
     def execute(self, request):
         n = len(self.sent)
